@@ -174,20 +174,50 @@ theorem partial_top_set_unorderable (xs : List V) (hraise : pySorted xs = .typeE
     simp only [getHash, hraise, pySorted_typeError_perm hp hraise,
       isort_eq_of_perm (ltByHash H) hp (strictTotal_byHash H xs hinj)]
 
-/-- Everything that is not an exact top-level `set` is hashed as laid out: two layouts have the same hash
-iff they are the same layout.  (This is what predicts, value by value, which hashes move.) -/
-theorem nonset_hash_eq_iff (a b : V) (ha : ∀ xs, a ≠ .set xs) (hb : ∀ xs, b ≠ .set xs) :
+/-- whatever does not reach the `Set` proxy is pickled as laid out -/
+theorem getHash_of_not_setLike (v : V) (h : isSetLike v = false) : getHash H v = .ok (.value v) := by
+  cases v with
+  | sub c b => cases b <;> simp_all [getHash, isSetLike]
+  | _ => simp_all [getHash, isSetLike]
+
+/-- Everything that does not reach the `Set` proxy (i.e. is neither an exact top-level `set` nor an instance of a
+subclass of `set`) is hashed as laid out: two layouts have the same hash iff they are the same layout.  (This is
+what predicts, value by value, which hashes move.) -/
+theorem nonset_hash_eq_iff (a b : V) (ha : isSetLike a = false) (hb : isSetLike b = false) :
     getHash H a = getHash H b ↔ a = b := by
+  rw [getHash_of_not_setLike H a ha, getHash_of_not_setLike H b hb]
   constructor
-  · intro h
-    cases a <;> cases b <;> simp_all [getHash]
+  · intro h; simpa using h
   · rintro rfl; rfl
+
+/-- MRO walk: an instance of a subclass of `set` is hashed by the `Set` proxy, exactly like the exact set with the
+same elements (the class does not enter the pre-image: `sorted(value)` is a plain list). -/
+theorem set_subclass_uses_set_proxy (c : String) (xs : List V) : getHash H (.sub c (.set xs)) = getHash H (.set xs) := rfl
+
+/-- … hence a top-level instance of a `set` subclass holding strs hashes the same under every layout. -/
+theorem partial_top_setsub_str (c : String) (xs : List V) (hs : ∀ x ∈ xs, ∃ s, x = .str s) (b : V)
+    (h : Sim (.sub c (.set xs)) b) : getHash H (.sub c (.set xs)) = getHash H b := by
+  cases h with
+  | sub _ hs' =>
+    cases hs' with
+    | set hp hss =>
+      exact partial_top_set_str H xs hs (.set _) (.set hp hss)
+
+/-- subclasses of the other builtin containers have no proxy: a `frozenset` subclass is as order sensitive as a
+frozenset -/
+theorem fset_subclass_sensitive (c : String) (x y : V) (r : List V) (hxy : x ≠ y) :
+    Sim (.sub c (.fset (x :: y :: r))) (.sub c (.fset (y :: x :: r))) ∧
+    getHash H (.sub c (.fset (x :: y :: r))) ≠ getHash H (.sub c (.fset (y :: x :: r))) := by
+  refine ⟨.sub c (sim_fset_of_perm (List.Perm.swap _ _ _)), ?_⟩
+  simp [getHash, hxy]
 
 /-- The hash the backend records for a task argument or result (`record_value`: `get_hash(data=serialize())`)
 is the hash `TypeRegistry.get_hash` computes — so every statement of this file about `getHash` is a statement
 about `Argument.value_hash` / `CallNode.value_hash` / `Value.value_hash` as well. -/
 theorem recordValue_eq_getHash (v : V) : recordValue H v = getHash H v := by
-  cases v <;> rfl
+  cases v with
+  | sub c b => cases b <;> rfl
+  | _ => rfl
 
 /-- In particular a recorded top-level set of strs does not depend on the layout. -/
 theorem recorded_top_set_str (xs : List V) (hs : ∀ x ∈ xs, ∃ s, x = .str s) (b : V) (h : Sim (.set xs) b) :
